@@ -56,6 +56,21 @@ Theorem c13_delivered_distinct : forall c ls s,
   run c (init c) ls = Some s -> NoDup (added s) -> NoDup (ritems (cs s) ++ taken s).
 Proof. exact delivered_distinct. Qed.
 
+(* the ...Anyway adds are retry loops: an attempt answered "full" or "closed" is a no-op, the accepted attempt wakes
+   every waiting consumer like any add; MQ.TryClear never touches what consumers see *)
+Theorem c13_full_add_is_noop : forall c s l s' r, (exists x, l = LAdd x None \/ l = LAddCtrl x) ->
+  step c s l = Some (s', OAdd r) -> r <> AOk -> s' = s.
+Proof. exact full_add_is_noop. Qed.
+
+Theorem c13_accepted_add_wakes_all : forall c s l s', knd c <> KSync ->
+  (exists x, l = LAdd x None \/ l = LAddPrior x \/ l = LAddCtrl x \/ l = LAddPriorCtrl x) ->
+  step c s l = Some (s', OAdd AOk) -> nwaiting s' = 0.
+Proof. exact accepted_add_wakes_all. Qed.
+
+Theorem c13_tryclear_spec : forall c s s' o, step c s LTryClear = Some (s', o) ->
+  s' = s /\ o = OBool (closed s && is_nil (items s)).
+Proof. exact tryclear_spec. Qed.
+
 (* the decreasing measure: a woken consumer can always run, each such step lowers the number of woken consumers by
    one, so from every state the system reaches a quiescent state after exactly that many steps *)
 Theorem c13_resume_enabled : forall c s u,
@@ -137,6 +152,9 @@ Print Assumptions c13_close_releases_all.
 Print Assumptions c13_k_items_k_consumers.
 Print Assumptions c13_conservation.
 Print Assumptions c13_delivered_distinct.
+Print Assumptions c13_full_add_is_noop.
+Print Assumptions c13_accepted_add_wakes_all.
+Print Assumptions c13_tryclear_spec.
 Print Assumptions c13_resume_enabled.
 Print Assumptions c13_resume_decreases.
 Print Assumptions c13_resumes_terminate.
